@@ -289,8 +289,8 @@ lyplg_type_store_binary(const struct ly_ctx *ctx, const struct lysc_type *type, 
         /* store size */
         val->size = value_len;
 
-        /* success */
-        goto cleanup;
+        /* only the length restriction is left to check */
+        goto length;
     }
 
     /* check hints */
@@ -330,6 +330,7 @@ lyplg_type_store_binary(const struct ly_ctx *ctx, const struct lysc_type *type, 
         LY_CHECK_GOTO(ret, cleanup);
     }
 
+length:
     if (!(options & LYPLG_TYPE_STORE_ONLY)) {
         /* validate length restriction of the binary value */
         if (type_bin->length) {
